@@ -62,10 +62,11 @@ func HarnessC19_Detector() {
 	archStarted, archEnded := false, false
 	everFailedTruth := false // the archetype has ended or its monitor has died: permanently failed
 	sawAliveAnswer := false
-	for step := 0; step < 4; step++ {
+	grace := 0
+	for step := 0; step < 5; step++ {
 		// environment event
 		ev := verifNondetInt("event") // the environment's move is a symbolic variable
-		verifAssume(ev >= 0 && ev < 5)
+		verifAssume(ev >= 0 && ev < 6)
 		switch ev {
 		case 0:
 			if !monitorUp && !processDead {
@@ -93,6 +94,18 @@ func HarnessC19_Detector() {
 			}
 		case 4:
 			// nothing happens during this interval
+		case 5:
+			if processDead {
+				// the process is restarted at the same address and runs the archetype again
+				mon = NewMonitor(addr)
+				end = make(chan int, 1)
+				ctx = distsys.NewMPCalContext(id, c19Archetype(end))
+				m2, c2 := mon, ctx
+				go func() { _ = m2.ListenAndServe() }()
+				go func() { _ = m2.RunArchetype(c2) }()
+				monitorUp, processDead, archStarted, archEnded, everFailedTruth = true, false, true, false, false
+				grace = 1 // the first poll after the restart still meets the dead connection and schedules a re-dial
+			}
 		}
 		c19Tick()
 		before := fd.getState()
@@ -108,8 +121,12 @@ func HarnessC19_Detector() {
 				verifAssert(failedAnswer, "after a crash / normal end / monitor death the detector reports failure within one polling interval and keeps doing so")
 			}
 			if monitorUp && !processDead && archStarted && !archEnded {
-				verifAssert(!failedAnswer, "a running archetype with a reachable monitor is reported alive after a successful poll")
-				sawAliveAnswer = true
+				if grace > 0 {
+					grace--
+				} else {
+					verifAssert(!failedAnswer, "a running archetype with a reachable monitor is reported alive after a successful poll")
+					sawAliveAnswer = true
+				}
 			}
 		}
 	}
